@@ -579,6 +579,13 @@ class PeerStateMachine():
 
     def get_next_state(self, next_state: str) -> Any:
         if next_state == CLOSED and self.current_state.name == CLOSED:
+            transport = self.association.transport
+            if transport is not None and transport._stop_threads:
+                #: The peer connected and went away before any capabilities
+                #: exchange: this connection has ended like any other.
+                self.is_running = False
+                self.association.close()
+
             return self.states[CLOSED]
 
         elif next_state == CLOSED and self.current_state.name != CLOSED:
